@@ -302,8 +302,38 @@ pub fn run(opts: &Opts) -> Report {
         check_scenario(&mut rep, sc, limit, &mut rng, i, None);
     }
     rep.sample(json!({"scenarios": scenarios(opts.thorough()).iter().map(|s| s.line()).collect::<Vec<_>>()}));
+    failed_standoff_write(&mut rep);
     stress(&mut rep, opts);
     rep
+}
+
+/// A reader whose serialisation fails half-way (a stand-off member whose file cannot be written) leaves the shared state
+/// as it found it: a reader that comes after it — another thread, the first one long finished — obtains what it would
+/// obtain running alone (here: the same error), not a document whose `@include` names a file nobody wrote.
+fn failed_standoff_write(rep: &mut Report) {
+    for (what, res, set) in [("dataset", false, true), ("resource", true, false), ("both", true, true)] {
+        let make = |tag: usize| -> AnnotationStore {
+            let dir = scratch_dir(7000 + tag);
+            let mut store = build(&dir, 2, &[], 2, &[], false);
+            // (a directory that does not exist: the stand-off file cannot be created)
+            if res { let r: &mut TextResource = store.get_mut(TextResourceHandle::new(0)).unwrap(); r.set_filename("no-such-directory/r0.txt"); }
+            if set { let s: &mut AnnotationDataSet = store.get_mut(AnnotationDataSetHandle::new(0)).unwrap(); s.set_filename("no-such-directory/s0.dataset.stam.json"); }
+            store
+        };
+        let class = |r: &Result<String, String>| match r { Ok(doc) => format!("ok ({} @include)", doc.matches("@include").count()), Err(_) => "error".to_string() };
+        let ser = |st: &Arc<AnnotationStore>| -> Result<String, String> { let st = st.clone(); std::thread::spawn(move || st.to_json_string(st.config()).map_err(|e| format!("{}", e))).join().unwrap_or_else(|_| Err("panic".into())) };
+        let alone = Arc::new(make(0));
+        let want = class(&ser(&alone));
+        let shared = Arc::new(make(1));
+        let first = class(&ser(&shared));
+        let second = class(&ser(&shared));
+        rep.count(&format!("failed-standoff-write:{}", what));
+        rep.case(Some(&format!("failed stand-off write {}", what)));
+        if first != want || second != want {
+            rep.fail("oracle", &format!("C20/reader-after-a-failed-stand-off-write/{}", what), vec![format!("a store whose stand-off {} has a file name in a directory that does not exist; two reader threads serialise it one after the other", what)], &format!("each: {} (what one reader obtains alone)", want), &format!("first: {}, second: {}", first, second));
+        }
+        for t in [0usize, 1] { std::fs::remove_dir_all(scratch_dir(7000 + t)).ok(); }
+    }
 }
 
 /// Free-running readers (no scheduler): four threads run a menu of read-only operations on one shared store, over and
